@@ -12,8 +12,8 @@ PROP = "C09"
 HEAP_TOL = 4096
 RULE = ("(a) model phase: random traffic in which some segments validate their flow (ack = cookie+1 learned from a probe "
         "SYN), some repeat on validated flows, and the rest is unvalidated (SYN with all 512 flag values, wrong "
-        "acknowledgement numbers incl. cookie, cookie+2, 0, FIN|ACK, RST, bare ACK, UDP requests of every application, ICMP, "
-        "ARP, mutated garbage); after every frame the table size must equal the number of validated flows of the model and "
+        "acknowledgement numbers incl. cookie, cookie+2, 0, FIN|ACK, RST, bare ACK - also carrying cookie+1 of a validated flow, from that flow and from foreign tuples -, UDP requests of every application, ICMP, "
+        "ARP, mutated garbage; flows whose cookie is exactly 0 / 0xFFFFFFFF); after every frame the table size must equal the number of validated flows of the model and "
         "may only grow by one on a validating segment. (b) flood phase: after a warm-up, N unvalidated frames of every kind "
         "must leave the table size unchanged and the live heap (counting allocator) within 4 KiB of its pre-flood value, "
         "under logger none/console/logfmt at level off and trace. Non-trivial = frames that reach L4 (or ARP); distinct = "
@@ -95,6 +95,13 @@ def model_phase(ctx, cfg, rounds):
             for _k in range(rng.choice([0, 1, 1, 2, 3])):
                 script.insert(rng.randrange(len(script) + 1), e.tcp(sp, dp, rng.getrandbits(32), (ck + 1) & 0xFFFFFFFF, PSH | ACK,
                                                                      rng.choice([b"", b"x", b"GET / HTTP/1.1\r\n\r\n", b"SSH-2.0-a\r\n"])))
+        # control segments that carry the cookie+1 of a (to be) validated flow, on that flow and from unrelated tuples:
+        # only PSH|ACK may create state, and nothing may remove it
+        for (e, sp, dp, ck) in flows:
+            for _k in range(rng.choice([0, 1, 2])):
+                fl = rng.choice([FIN | ACK, FIN | ACK, RST, ACK, RST | ACK, FIN])
+                src = e if rng.random() < 0.5 else gen.endp(rng, cfg, e.v6)
+                script.insert(rng.randrange(len(script) + 1), src.tcp(sp if src is e else gen.rnd_port(rng), dp, rng.getrandbits(32), (ck + 1) & 0xFFFFFFFF, fl))
         rs = ctx.send_many(script)
         prev = 0
         for f, r in zip(script, rs):
@@ -188,11 +195,48 @@ def reproduce_known(ctx):
                               observed=r.table, expected=n)
 
 
+def boundary_cookies(ctx):
+    """Flows whose cookie is 0 / 0xFFFFFFFF (witnesses.json, re-validated by a probe): wrong acks around the wrap must not
+    create state, the valid one (cookie+1 mod 2^32) must create exactly one entry."""
+    import json
+    import os
+    from .. import build
+    try:
+        ws = json.load(open(os.path.join(build.VERIF, "witnesses.json")))["boundary_cookies"]
+    except Exception:
+        return
+    for w in ws:
+        cfg = Config(pkt.mac("c0:ff:ee:c0:ff:ee"), None, None, (int(w["key"][0], 16), int(w["key"][1], 16)), "n", 0)
+        ctx.case(cfg, reset=True)
+        e = pkt.Endp(pkt.mac("02:00:00:00:00:77"), cfg.mac, pkt.ip(w["src"]), pkt.ip(w["dst"]))
+        sp, dp, want = w["sport"], w["dport"], int(w["cookie"], 16)
+        r = ctx.send(e.tcp(sp, dp, 9, 0, SYN))
+        if r.kind != "R" or pkt.parse(r.reply).get("seq") != want:
+            ctx.stats["boundary_witness_stale"] += 1
+            continue
+        good = (want + 1) & 0xFFFFFFFF
+        for bad in (0, 1, 2, 0xFFFFFFFF, 0xFFFFFFFE):
+            if bad == good:
+                continue
+            r = ctx.send(e.tcp(sp, dp, 10, bad, PSH | ACK, b"x"))
+            if r.kind != "P" and r.table != 0:
+                ctx.violation("state_created:boundary", "flow with cookie %08x: data with ack=%d (valid is %d) created connection state" % (want, bad, good),
+                              observed=r.table, expected=0)
+                break
+        r = ctx.send(e.tcp(sp, dp, 10, good, PSH | ACK, b"x"))
+        ctx.nontrivial("boundary", want)
+        if r.kind != "P" and r.table != 1:
+            ctx.violation("state_missing:boundary", "flow with cookie %08x: data with the valid ack=%d did not create its table entry (table %d)" % (want, good, r.table),
+                          observed=r.table, expected=1)
+
+
 def shard(ctx, budget_s, flood_n):
     rng = ctx.rng
     deadline = time.time() + budget_s
     if ctx.shard == 0:
         reproduce_known(ctx)
+    if ctx.shard == 1 % ctx.nshards:
+        boundary_cookies(ctx)
     combos = [("n", 0), ("c", 0), ("l", 0), ("n", 5), ("c", 5), ("l", 5)]
     lg, lv = combos[ctx.shard % len(combos)]
     cfg = gen.rnd_config(rng, deny=rng.random() < 0.3, logger=lg, level=lv)
